@@ -14,6 +14,9 @@ CONSTANTS
  MaxPool = 4
  MaxProv = 1
  MaxSteps = 3
+ DefUrls = {"", "ud"}
+ DefExtras = {{}}
+ EnvUrls = {"", "ue"}
  RdKinds = {"uint", "dur"}
  RdPres = {"none"}
  RdBodies = {"d1", "d9"}
@@ -23,5 +26,5 @@ CONSTANTS
 INIT Init
 NEXT Next
 VIEW View
-INVARIANTS MMergePrecedence MCreate MServiceName MEmitSeesProviderResource MRead MDead
+INVARIANTS MMergePrecedence MCreate MServiceName MEmitSeesProviderResource MRead MDead MGivens
 PROPERTY MergeLeavesOperandsUnchanged
